@@ -22,7 +22,7 @@ fn key(r: &mut Rng, big: bool) -> String {
         2 => "ключ/鍵/🔑".into(),
         3 => "a\u{0}b".into(),
         4 => if big { "κ".repeat(32 * 1024) } else { "κ".repeat(700) },
-        5 => if big { format!("{}/tail", "x".repeat(64 * 1024)) } else { format!("{}/tail", "x".repeat(2000)) },
+        5 => if big { format!("{}/tail", "x".repeat(64 * 1024)) } else { format!("{}/tail", "x".repeat(*r.pick(&[2000usize, 2000, 70_000]))) },
         _ => rand_string(r, false),
     }
 }
@@ -31,7 +31,7 @@ fn value(r: &mut Rng, big: bool) -> Vec<u8> {
         0 => vec![],
         1 => vec![0],
         2 => vec![0xff, 0xfe, 0x00, 0x80],
-        3 => { let n = if big { 1 << 20 } else { 6000 }; let mut v = vec![0xabu8; n]; v[0] = 1; v[n / 2] = 2; v[n - 1] = 3; v }
+        3 => { let n = if big { 1 << 20 } else { *r.pick(&[6000usize, 6000, 70_000, 200_000]) }; let mut v = vec![0xabu8; n]; v[0] = 1; v[n / 2] = 2; v[n - 1] = 3; v }
         4 => { let n = if big { 300_000 } else { 3000 }; vec![0u8; n] }
         5 => rand_bytes(r, true),
         _ => rand_bytes(r, false),
@@ -96,12 +96,96 @@ fn j_seen(before: usize, entries: &[Entry]) -> String {
     }
 }
 
+fn exchange(api: Api, bridge: bool, event: Event, op: KeyValueOperation, result: KeyValueResult) {
+    let head = format!("\"api\":\"{}\",\"path\":\"{}\",\"call\":{},\"result\":{}",
+        if api == Api::Capability { "capability" } else { "command" }, if bridge { "bridge" } else { "typed" }, j_op(&op), j_result(&result));
+    if !bridge {
+        let core: crux_core::Core<kvapp::App> = crux_core::Core::new();
+        let effects = match catch_unwind(AssertUnwindSafe(|| core.process_event(event))) { Ok(e) => e, Err(_) => { println!("{{{},\"obs\":\"panic-on-event\"}}", head); return; } };
+        let mut ops = vec![]; let mut others = 0; let mut reqs = vec![];
+        for e in effects { match e { kvapp::Effect::KeyValue(q) => { ops.push(j_op(&q.operation)); reqs.push(q); } _ => others += 1 } }
+        let before = core.view().entries.len();
+        let mut panicked = false; let mut after_effects = vec![];
+        if let Some(mut q) = reqs.into_iter().next() {
+            match catch_unwind(AssertUnwindSafe(|| core.resolve(&mut q, result.clone()))) {
+                Ok(Ok(es)) => for e in es { after_effects.push(match e { kvapp::Effect::Render(_) => "render", kvapp::Effect::KeyValue(_) => "kv", _ => "other" }); },
+                Ok(Err(_)) => after_effects.push("resolve-error"),
+                Err(_) => panicked = true,
+            }
+        }
+        let seen = if panicked { "{\"s\":\"panic\"}".to_string() } else { j_seen(before, &core.view().entries) };
+        println!("{{{},\"ops\":[{}],\"others\":{},\"seen\":{},\"after\":{}}}", head, ops.join(","), others, seen, json_str(&after_effects.join(",")));
+    } else {
+        use crux_core::bridge::{Bridge, Request};
+        let b: Bridge<kvapp::App> = Bridge::new(crux_core::Core::new());
+        let ev_bytes = bridge_opts().serialize(&event).unwrap();
+        let batch = match catch_unwind(AssertUnwindSafe(|| b.process_event(&ev_bytes))) { Ok(Ok(x)) => x, _ => { println!("{{{},\"obs\":\"event-rejected\"}}", head); return; } };
+        let reqs: Vec<Request<kvapp::EffectFfi>> = bridge_opts().deserialize(&batch).unwrap_or_default();
+        let id = reqs.iter().find(|q| matches!(q.effect, kvapp::EffectFfi::KeyValue(_))).map(|q| q.id.0);
+        let view = |b: &Bridge<kvapp::App>| -> Vec<Entry> { b.view().ok().and_then(|v| bridge_opts().deserialize::<kvapp::ViewModel>(&v).ok()).map(|v| v.entries).unwrap_or_default() };
+        let before = view(&b).len();
+        let written = bridge_opts().serialize(&result).unwrap();
+        let mut seen = "{\"s\":\"nothing\"}".to_string(); let mut after = String::new();
+        if let Some(id) = id {
+            match catch_unwind(AssertUnwindSafe(|| b.handle_response(id, &written))) {
+                Ok(Ok(out)) => { after = hex(&out); seen = j_seen(before, &view(&b)); }
+                Ok(Err(e)) => { after = format!("err:{}", e); seen = j_seen(before, &view(&b)); }
+                Err(_) => seen = "{\"s\":\"panic\"}".into(),
+            }
+        }
+        println!("{{{},\"batch\":\"{}\",\"written\":\"{}\",\"seen\":{},\"after\":{}}}", head, hex(&batch), hex(&written), seen, json_str(&after));
+    }
+}
+
+fn make(api: Api, kind: u64, k: String, v: Vec<u8>, c: u64) -> (Event, KeyValueOperation) {
+    match kind {
+        0 => (Event::KvGet { api, key: k.clone() }, KeyValueOperation::Get { key: k }),
+        1 => (Event::KvSet { api, key: k.clone(), value: v.clone() }, KeyValueOperation::Set { key: k, value: v }),
+        2 => (Event::KvDelete { api, key: k.clone() }, KeyValueOperation::Delete { key: k }),
+        3 => (Event::KvExists { api, key: k.clone() }, KeyValueOperation::Exists { key: k }),
+        _ => (Event::KvList { api, prefix: k.clone(), cursor: c }, KeyValueOperation::ListKeys { prefix: k, cursor: c }),
+    }
+}
+
+/// every API x path x call kind against every error variant and the boundary payloads, with boundary
+/// arguments (empty key, cursor 0 and u64::MAX): the cases a random draw hits only now and then
+fn systematic() {
+    for api in [Api::Capability, Api::Command] {
+        for bridge in [false, true] {
+            for kind in 0..5u64 {
+                for cur in [0u64, u64::MAX] {
+                    if kind != 4 && cur != 0 { continue; }
+                    let errors = vec![
+                        KeyValueError::Io { message: "disk".into() }, KeyValueError::Timeout, KeyValueError::CursorNotFound, KeyValueError::Other { message: String::new() },
+                    ];
+                    for e in errors {
+                        let (event, op) = make(api, kind, if cur == 0 { String::new() } else { "p/".into() }, vec![], cur);
+                        exchange(api, bridge, event, op, KeyValueResult::Err { error: e });
+                    }
+                    let payloads: Vec<KeyValueResponse> = match kind {
+                        0 => vec![Value::None, Value::Bytes(vec![]), Value::Bytes(vec![0])].into_iter().map(|value| KeyValueResponse::Get { value }).collect(),
+                        1 => vec![Value::None, Value::Bytes(vec![]), Value::Bytes(vec![0])].into_iter().map(|previous| KeyValueResponse::Set { previous }).collect(),
+                        2 => vec![Value::None, Value::Bytes(vec![]), Value::Bytes(vec![0])].into_iter().map(|previous| KeyValueResponse::Delete { previous }).collect(),
+                        3 => vec![KeyValueResponse::Exists { is_present: true }, KeyValueResponse::Exists { is_present: false }],
+                        _ => vec![KeyValueResponse::ListKeys { keys: vec![], next_cursor: 0 }, KeyValueResponse::ListKeys { keys: vec![String::new(), "k".into()], next_cursor: u64::MAX }],
+                    };
+                    for response in payloads {
+                        let (event, op) = make(api, kind, "k".into(), vec![1, 2, 3], cur);
+                        exchange(api, bridge, event, op, KeyValueResult::Ok { response });
+                    }
+                }
+            }
+        }
+    }
+}
+
 fn main() {
     let a: Vec<String> = std::env::args().collect();
     let seed: u64 = a.get(1).and_then(|s| s.parse().ok()).unwrap_or(1);
     let count: u64 = a.get(2).and_then(|s| s.parse().ok()).unwrap_or(100);
     let big = a.get(3).map(|s| s == "big").unwrap_or(false);
     std::panic::set_hook(Box::new(|_| {}));
+    systematic();
     let mut r = Rng::new(seed ^ 0xC17);
     for i in 0..count {
         let api = if i % 2 == 0 { Api::Capability } else { Api::Command };
@@ -120,43 +204,6 @@ fn main() {
             3..=5 => { let other = (kind + 1 + r.below(4)) % 5; KeyValueResult::Ok { response: response(&mut r, other, false) } }
             _ => KeyValueResult::Ok { response: response(&mut r, kind, big_case) },
         };
-        let head = format!("\"api\":\"{}\",\"path\":\"{}\",\"call\":{},\"result\":{}",
-            if api == Api::Capability { "capability" } else { "command" }, if bridge { "bridge" } else { "typed" }, j_op(&op), j_result(&result));
-        if !bridge {
-            let core: crux_core::Core<kvapp::App> = crux_core::Core::new();
-            let effects = match catch_unwind(AssertUnwindSafe(|| core.process_event(event))) { Ok(e) => e, Err(_) => { println!("{{{},\"obs\":\"panic-on-event\"}}", head); continue; } };
-            let mut ops = vec![]; let mut others = 0; let mut reqs = vec![];
-            for e in effects { match e { kvapp::Effect::KeyValue(q) => { ops.push(j_op(&q.operation)); reqs.push(q); } _ => others += 1 } }
-            let before = core.view().entries.len();
-            let mut panicked = false; let mut after_effects = vec![];
-            if let Some(mut q) = reqs.into_iter().next() {
-                match catch_unwind(AssertUnwindSafe(|| core.resolve(&mut q, result.clone()))) {
-                    Ok(Ok(es)) => for e in es { after_effects.push(match e { kvapp::Effect::Render(_) => "render", kvapp::Effect::KeyValue(_) => "kv", _ => "other" }); },
-                    Ok(Err(_)) => after_effects.push("resolve-error"),
-                    Err(_) => panicked = true,
-                }
-            }
-            let seen = if panicked { "{\"s\":\"panic\"}".to_string() } else { j_seen(before, &core.view().entries) };
-            println!("{{{},\"ops\":[{}],\"others\":{},\"seen\":{},\"after\":{}}}", head, ops.join(","), others, seen, json_str(&after_effects.join(",")));
-        } else {
-            use crux_core::bridge::{Bridge, Request};
-            let b: Bridge<kvapp::App> = Bridge::new(crux_core::Core::new());
-            let ev_bytes = bridge_opts().serialize(&event).unwrap();
-            let batch = match catch_unwind(AssertUnwindSafe(|| b.process_event(&ev_bytes))) { Ok(Ok(x)) => x, _ => { println!("{{{},\"obs\":\"event-rejected\"}}", head); continue; } };
-            let reqs: Vec<Request<kvapp::EffectFfi>> = bridge_opts().deserialize(&batch).unwrap_or_default();
-            let id = reqs.iter().find(|q| matches!(q.effect, kvapp::EffectFfi::KeyValue(_))).map(|q| q.id.0);
-            let view = |b: &Bridge<kvapp::App>| -> Vec<Entry> { b.view().ok().and_then(|v| bridge_opts().deserialize::<kvapp::ViewModel>(&v).ok()).map(|v| v.entries).unwrap_or_default() };
-            let before = view(&b).len();
-            let written = bridge_opts().serialize(&result).unwrap();
-            let mut seen = "{\"s\":\"nothing\"}".to_string(); let mut after = String::new();
-            if let Some(id) = id {
-                match catch_unwind(AssertUnwindSafe(|| b.handle_response(id, &written))) {
-                    Ok(Ok(out)) => { after = hex(&out); seen = j_seen(before, &view(&b)); }
-                    Ok(Err(e)) => { after = format!("err:{}", e); seen = j_seen(before, &view(&b)); }
-                    Err(_) => seen = "{\"s\":\"panic\"}".into(),
-                }
-            }
-            println!("{{{},\"batch\":\"{}\",\"written\":\"{}\",\"seen\":{},\"after\":{}}}", head, hex(&batch), hex(&written), seen, json_str(&after));
-        }
+        exchange(api, bridge, event, op, result);
     }
 }
